@@ -83,6 +83,8 @@ class QueryBuilder:
             m = getattr(recv, e["m"])
             if e["arg"]["t"] == "noarg":
                 return m()
+            if e.get("kw"):
+                return m(k=world.decode(e["arg"], self.heap))
             return m(world.decode(e["arg"], self.heap))
         if k == "flat":
             j = e["j"]
